@@ -88,6 +88,25 @@ def positional_mutants(d, rng):
                 if m is not None and m != d:
                     info['pos'] = pos
                     out.append({'d': d, 'other': m, 'mode': 'mut', 'info': info, 'side': rng.choice(['a', 'b'])})
+    if d['sensors']:
+        # one more mutant per dataset: the camera MODEL of a camera / depth sensor that is NOT the first sensor in identifier order
+        # (same identifier, name, sensor type and numbers)
+        sids = sorted(d['sensors'])
+        cand = [sid for sid in sids[1:] if d['sensors'][sid]['type'] in ('camera', 'depth') and d['sensors'][sid]['params']]
+        if cand:
+            m = copy.deepcopy(d)
+            sp = m['sensors'][cand[-1]]
+            same = {'PINHOLE': 'SIMPLE_RADIAL', 'SIMPLE_RADIAL': 'PINHOLE', 'RADIAL': 'FOV', 'FOV': 'RADIAL',
+                    'OPENCV': 'OPENCV_FISHEYE', 'OPENCV_FISHEYE': 'OPENCV'}
+            old = sp['params'][0]
+            if old in same:
+                sp['params'] = [same[old]] + list(sp['params'][1:])
+            elif old == 'SIMPLE_PINHOLE':
+                sp['params'] = ['PINHOLE'] + list(sp['params'][1:4]) + [sp['params'][3]] + list(sp['params'][4:])
+            else:
+                sp['params'] = ['SIMPLE_PINHOLE'] + list(sp['params'][1:3]) + ['500', '320', '240']
+            out.append({'d': d, 'other': m, 'mode': 'mut', 'side': rng.choice(['a', 'b']),
+                        'info': {'part': 'sensors', 'kind': 'alter', 'expect_equal': False, 'pos': 'model-not-first'}})
     if d['observations']:
         # one more mutant per dataset with observations: an existing (image, feature) pair listed once more for its point
         _FORCE[0] = 'dup'
